@@ -140,14 +140,16 @@ func c09NewMemRefStore() (*c09RefStore, func()) {
 	return &c09RefStore{Store: refsql.NewStore(db)}, func() { db.Close() }
 }
 
-// c09TableCSV returns the CSV text of fixture table number t.  Table 0 has several
-// blocks (300 rows); the others are small.  Tables with different t differ in content.
+// c09TableCSV returns the CSV text of fixture table number t.  Table 0 has several blocks (300 rows),
+// tables 1..4 have 3 rows, every other number is a 1-row table.  Tables with different t differ in content.
 func c09TableCSV(t int) string {
 	var sb strings.Builder
 	sb.WriteString("a,b,c\n")
-	n := 3
+	n := 1
 	if t == 0 {
 		n = 300
+	} else if t < 5 {
+		n = 3
 	}
 	for i := 0; i < n; i++ {
 		fmt.Fprintf(&sb, "%d,t%d,v%d\n", i+1, t, (i*7+t)%11)
@@ -155,11 +157,15 @@ func c09TableCSV(t int) string {
 	return sb.String()
 }
 
-// c09EnsureTable ingests fixture table t into db (idempotent) and returns its sum.
-func c09EnsureTable(db objects.Store, t int) []byte {
-	if sum, ok := c09TableSumCache[t]; ok && objects.TableExist(db, sum) {
-		return sum
+// c09TableObjs: everything the real ingest stores for fixture table t (table, table index, profile, blocks,
+// block indices), ingested once into a scratch store; populating a store is then a plain copy.
+var c09TableObjs = map[int]map[string][]byte{}
+
+func c09IngestFixture(t int) {
+	if _, ok := c09TableObjs[t]; ok {
+		return
 	}
+	db := objmock.NewStore()
 	s, err := sorter.NewSorter()
 	if err != nil {
 		panic(err)
@@ -167,6 +173,35 @@ func c09EnsureTable(db objects.Store, t int) []byte {
 	defer s.Close()
 	sum, err := ingest.IngestTable(db, s, io.NopCloser(strings.NewReader(c09TableCSV(t))), []string{"a"}, logr.Discard(), ingest.WithNumWorkers(1))
 	if err != nil {
+		panic(err)
+	}
+	m, err := db.Filter(nil)
+	if err != nil {
+		panic(err)
+	}
+	c09TableObjs[t] = m
+	c09TableSumCache[t] = sum
+}
+
+// c09EnsureTable stores fixture table t in db (idempotent) and returns its sum.
+func c09EnsureTable(db objects.Store, t int) []byte {
+	c09IngestFixture(t)
+	sum := c09TableSumCache[t]
+	if objects.TableExist(db, sum) {
+		return sum
+	}
+	tkey := ""
+	for k, v := range c09TableObjs[t] {
+		if strings.HasPrefix(k, "tbl/") {
+			tkey = k
+			continue
+		}
+		if err := db.Set([]byte(k), v); err != nil {
+			panic(err)
+		}
+	}
+	// the table object last: it is what marks the table as present
+	if err := db.Set([]byte(tkey), c09TableObjs[t][tkey]); err != nil {
 		panic(err)
 	}
 	return sum
@@ -268,12 +303,8 @@ func (g *c09Graph) IdOf(sum []byte) int {
 var c09TableSumCache = map[int][]byte{}
 
 func c09TableSum(t int) []byte {
-	if s, ok := c09TableSumCache[t]; ok {
-		return s
-	}
-	s := c09EnsureTable(objmock.NewStore(), t)
-	c09TableSumCache[t] = s
-	return s
+	c09IngestFixture(t)
+	return c09TableSumCache[t]
 }
 
 // c09ReadLogs returns the reflog of a ref, newest first, as (old, new, action) triples.
